@@ -1,4 +1,5 @@
 import NA.Proofs.F1Routes
+import NA.Proofs.F1TailBinds
 /-!
 # F1: the whole engine on the strict device, class K2
 
@@ -153,15 +154,57 @@ theorem full_init (a b : Config) (sc : Scripts) (st : St) (managed : List Nat)
       exact hm.closed X hf l0 hl0 x hx
     · exact absurd hXA hf
 
+theorem lookup_filter_keepK {κ β : Type} [BEq κ] [LawfulBEq κ] (keep : κ → Bool) (k : κ) (hk : keep k = true) : ∀ (m : List (κ × β)),
+    (m.filter fun p => keep p.1).lookup k = m.lookup k := by
+  intro m
+  induction m with
+  | nil => rfl
+  | cons p ps ih =>
+    obtain ⟨k2, v2⟩ := p
+    by_cases e : k = k2
+    · subst e; simp [List.filter, hk, List.lookup]
+    · have hb : (k == k2) = false := by simpa using e
+      simp only [List.filter]
+      split
+      · simp only [List.lookup, hb]; exact ih
+      · simp only [List.lookup, hb]; exact ih
+
+/-- An access-group command that is not compared belongs to an interface unknown to the target. -/
+theorem unmanaged_intf (e : Env) (st : St) (managed : List Nat) (h : checkInterfaces e {} = some (st, managed))
+    (i : Nat) (hi : i < e.a.binds.length) (hm : i ∉ managed) :
+    (e.a.binds.getD i default).intf ∉ e.b.binds.map (·.intf) := by
+  unfold checkInterfaces at h
+  simp only [] at h
+  split at h
+  · simp only [Option.some.injEq, Prod.mk.injEq] at h
+    obtain ⟨_, h2⟩ := h
+    rw [← h2] at hm
+    have hu : i ∈ ((e.a.intfs.filter fun n => !(e.b.binds.map (·.intf)).contains n).flatMap (bindsOf e.a.binds)).eraseDups := by
+      by_cases hx : i ∈ ((e.a.intfs.filter fun n => !(e.b.binds.map (·.intf)).contains n).flatMap (bindsOf e.a.binds)).eraseDups
+      · exact hx
+      · exfalso; apply hm
+        exact List.mem_filter.mpr ⟨List.mem_range.mpr hi, by simpa using hx⟩
+    rw [List.mem_eraseDups] at hu
+    obtain ⟨n, hn, hin⟩ := List.mem_flatMap.mp hu
+    have hn' := (List.mem_filter.mp hn).2
+    unfold bindsOf at hin
+    have := (List.mem_filter.mp hin).2
+    simp only [beq_iff_eq] at this
+    rw [this]
+    simpa using hn'
+  · exact absurd h (by simp)
+
 /-- ... and the invariant of the run over the access-group commands. -/
 theorem binv_init (a b : Config) (sc : Scripts) (st : St) (managed : List Nat)
     (h : checkInterfaces ⟨a, b, sc⟩ {} = some (st, managed)) (hAclNames : (a.acls.map (·.1)).Nodup)
-    (hkeys : (a.binds.map fun x => (x.dir, x.intf)).Nodup) :
-    BInv ⟨a, b, sc⟩ (generateNames ⟨a, b, sc⟩ st) (ofConfig a) managed [] := by
+    (hkeys : (a.binds.map fun x => (x.dir, x.intf)).Nodup)
+    (hmk : (managed.map (keyOf ⟨a, b, sc⟩)).Nodup) :
+    BInv ⟨a, b, sc⟩ managed (generateNames ⟨a, b, sc⟩ st) (ofConfig a) managed [] := by
   obtain ⟨_, hm2, hm3⟩ := checkInterfaces_marks _ st managed h
   have hbk : (ofConfig a).binds.map (·.1) = a.binds.map fun x => (x.dir, x.intf) := by
     simp [ofConfig, List.map_map, Function.comp_def]
-  refine ⟨full_init a b sc st managed h hAclNames, rfl, by rw [hbk]; exact hkeys, hbk, ?_, ?_, fun b hb => by simp at hb, rfl⟩
+  refine ⟨full_init a b sc st managed h hAclNames, rfl, by rw [hbk]; exact hkeys, ?_, hmk, hm3, ?_, ?_, fun b hb => by simp at hb,
+    fun b hb => by simp at hb, rfl⟩
   · intro i hi
     have hi' := hm3 i hi
     apply lookup_of_mem_nodup' _ _ _ (by rw [hbk]; exact hkeys)
@@ -181,26 +224,32 @@ theorem binv_init (a b : Config) (sc : Scripts) (st : St) (managed : List Nat)
         simp [aclOfI, List.getD_eq_getElem?_getD, List.getElem?_eq_getElem hi]
       rw [← this]
       exact h1
+  · intro p hp
+    simp only [ofConfig, List.mem_map] at hp
+    obtain ⟨x, hx, rfl⟩ := hp
+    obtain ⟨i, hi, rfl⟩ := List.getElem_of_mem hx
+    have hk : ((a.binds[i].dir, a.binds[i].intf) : String × Name) = keyOf ⟨a, b, sc⟩ i := by
+      simp [keyOf, List.getD_eq_getElem?_getD, List.getElem?_eq_getElem hi]
+    by_cases hmm : i ∈ managed
+    · exact Or.inl ⟨i, hmm, hk⟩
+    · exact Or.inr (Or.inr ⟨i, hi, hmm, hk⟩)
 
 /-! ## What is pending in `deleteUnused` when every compared access-group command is `needed` -/
 
-theorem duPending_allNeeded (e : Env) (st : St) (managed : List Nat) (hb : ∀ i ∈ managed, i ∈ st.bNeeded) :
-    (duPending e st managed).1.binds = [] ∧
+theorem duPending_allNeeded (e : Env) (st : St) (managed : List Nat)
+    (hb : ∀ i ∈ managed, i ∈ st.bNeeded ∨ i ∈ st.bToDel) :
+    (duPending e st managed).1.binds = (managed.filter fun i => !st.bNeeded.contains i && st.bToDel.contains i) ∧
     (∀ m ∈ (duPending e st managed).1.acls, m ∈ A0 e ∧ m ∉ st.aNeeded) ∧
     (∀ g ∈ (duPending e st managed).1.grps, g ∈ D0 e ∧ g ∉ st.gNeeded ∧
       ∀ n ∈ A0 e, n ∉ st.aNeeded → n ∉ (duPending e st managed).1.acls → ∀ l ∈ e.aLines n, g ∉ l.refs) ∧
     ((A0 e).Nodup → (duPending e st managed).1.acls.Nodup) ∧
     ((D0 e).Nodup → (duPending e st managed).1.grps.Nodup) := by
   unfold duPending
-  have hB0 : (managed.filter fun i => !st.bNeeded.contains i && st.bToDel.contains i) = [] := by
-    apply List.filter_eq_nil_iff.mpr
-    intro i hi
-    simp [hb i hi]
   have hB1 : (managed.filter fun i => !st.bNeeded.contains i && !st.bToDel.contains i) = [] := by
     apply List.filter_eq_nil_iff.mpr
     intro i hi
-    simp [hb i hi]
-  simp only [hB0, hB1, List.map_nil, List.filter_nil, List.contains_nil, Bool.or_false, Bool.not_false]
+    rcases hb i hi with h | h <;> simp [h]
+  simp only [hB1, List.map_nil, List.filter_nil, List.contains_nil, Bool.or_false, Bool.not_false]
   have hfT : ∀ (l : List Name), l.filter (fun _ => true) = l := fun l => List.filter_eq_self.mpr (fun _ _ => rfl)
   simp only [hfT]
   refine ⟨trivial, ?_, ?_, ?_, ?_⟩
@@ -251,12 +300,14 @@ names; each referenced device group exists and has the target group's members. -
 def AclEquiv (e : Env) (d : Dev) (ls : List RLine) (bl : List Line) : Prop :=
   ls.length = bl.length ∧ ∀ p ∈ ls.zip bl, LineEquiv e d p.1 p.2
 
-/-- **The device carries the target** (fragment F1): same interfaces and the same places of access-group
-commands as before; at every place named by the target an access list equivalent to the target's one is bound;
+/-- **The device carries the target** (fragment F1): same interfaces; an access-group command only at a place the
+target names or at a place of an interface unknown to the target (where the device had one);
+at every place named by the target an access list equivalent to the target's one is bound;
 the routes are the target's routes (or, if the target has none, the old ones). -/
 structure Converged (e : Env) (d' : Dev) : Prop where
   intfs : d'.intfs = e.a.intfs
-  bindKeys : d'.binds.map (·.1) = e.a.binds.map fun x => (x.dir, x.intf)
+  bindsFrom : ∀ p ∈ d'.binds, (∃ x ∈ e.b.binds, p.1 = (x.dir, x.intf)) ∨
+    (∃ y ∈ e.a.binds, p.1 = (y.dir, y.intf) ∧ y.intf ∉ e.b.binds.map (·.intf))
   binds : ∀ x ∈ e.b.binds, ∃ X, d'.binds.lookup (x.dir, x.intf) = some X ∧
     AclEquiv e d' (linesOf d' X) (e.bLines x.acl)
   routes : e.b.routes ≠ [] → ∀ r, r ∈ d'.routes ↔ r ∈ e.b.routes.map (·.text)
@@ -277,13 +328,24 @@ theorem engine_eq (a b : Config) (sc : Scripts) (st0 : St) (managed : List Nat)
   simp only [h]
   rfl
 
+theorem transferAcl_bmarks (e : Env) (st : St) (bN : Name) :
+    (transferAcl e st bN).bNeeded = st.bNeeded ∧ (transferAcl e st bN).bToDel = st.bToDel := by
+  unfold transferAcl
+  split
+  · exact ⟨rfl, rfl⟩
+  · have := SameAclMarks.foldl (fun st l => emitLine e st (Chg.acl (st.aNameOf bN) none) l) (e.bLines bN)
+      ({ st with aReady := bN :: st.aReady }.hit "acl:transfer") (fun s x => emitLine_aclMarks e s _ x)
+    exact ⟨this.bNeeded, this.bToDel⟩
+
 /-- The access-group part of the run. -/
 theorem binds_run (e : Env) (hw : WF e) (hA : RefsClosedA e) (hB : RefsClosedB e) (st0 : St) (managed : List Nat)
-    (hI0 : BInv e (generateNames e st0) (ofConfig e.a) managed [])
+    (hI0 : ∀ (_ : (managed.map (keyOf e)).Nodup), BInv e managed (generateNames e st0) (ofConfig e.a) managed [])
     (hc : bindsCheck e (generateNames e st0) managed = true) :
-    ∃ d1 dn, Step e (generateNames e st0) (ofConfig e.a) (afterBinds e st0 managed) d1 ∧
-      BInv e (afterBinds e st0 managed) d1 [] dn ∧ (∀ x ∈ e.b.binds, x ∈ dn) ∧
-      (∀ i ∈ managed, i ∈ (afterBinds e st0 managed).bNeeded) := by
+    ∃ d1 pend dn, Step e (generateNames e st0) (ofConfig e.a) (afterBinds e st0 managed) d1 ∧
+      BInv e managed (afterBinds e st0 managed) d1 pend dn ∧ (∀ x ∈ e.b.binds, x ∈ dn) ∧ (∀ x ∈ dn, x ∈ e.b.binds) ∧
+      (managed.map (keyOf e)).Nodup ∧
+      (∀ i ∈ managed, i ∈ (afterBinds e st0 managed).bNeeded ∨ i ∈ pend) ∧
+      (∀ i ∈ pend, i ∈ managed ∧ i ∉ (afterBinds e st0 managed).bNeeded ∧ i ∈ (afterBinds e st0 managed).bToDel) := by
   unfold bindsCheck at hc
   unfold afterBinds
   by_cases h0 : (managed.isEmpty && e.b.binds.isEmpty) = true
@@ -291,24 +353,82 @@ theorem binds_run (e : Env) (hw : WF e) (hA : RefsClosedA e) (hB : RefsClosedB e
     simp only [Bool.and_eq_true, List.isEmpty_iff] at h0
     obtain ⟨m0, b0⟩ := h0
     subst m0
-    exact ⟨_, [], Step.refl _ _ _, hI0, fun x hx => by rw [b0] at hx; simp at hx, fun i hi => by simp at hi⟩
+    exact ⟨_, [], [], Step.refl _ _ _, hI0 (by simp), fun x hx => by rw [b0] at hx; simp at hx, fun x hx => by simp at hx,
+      by simp, fun i hi => by simp at hi, fun i hi => by simp at hi⟩
   · rw [if_neg h0] at hc ⊢
-    simp only [Bool.and_eq_true, decide_eq_true_eq] at hc
-    obtain ⟨⟨⟨⟨⟨c1, c2⟩, c3⟩, c4⟩, c5⟩, c6⟩ := hc
-    rw [diffBinds_eq_pairs e _ managed e.b.binds c1]
-    generalize bindPairs managed e.b.binds
-      (diffUnordered (managed.map fun i => (e.a.binds.getD i default).key) (e.b.binds.map (·.key))) = pairs at c2 c3 c4 c5 c6 ⊢
-    obtain ⟨d1, s1, i1, _, bn1⟩ := pairsFold_full e hw hA hB pairs (generateNames e st0) (ofConfig e.a) [] []
-      (by rw [List.append_nil, c2]; exact hI0) c6
-      (by rw [List.append_nil, List.map_map]; exact c4) (by rw [List.nil_append, List.map_map]; exact c5)
-    refine ⟨d1, [] ++ pairs.map (·.2), s1, i1, ?_, ?_⟩
-    · intro x hx
-      rw [List.all_eq_true] at c3
-      have := c3 x hx
+    simp only [Bool.and_eq_true, decide_eq_true_eq, Bool.not_eq_true'] at hc
+    obtain ⟨⟨c1, c3⟩, hc⟩ := hc
+    by_cases h2 : (diffUnordered (managed.map fun i => (e.a.binds.getD i default).key) (e.b.binds.map (·.key))).any (·.isEqual) = true
+    · rw [if_pos h2] at hc
+      simp only [Bool.and_eq_true, List.isEmpty_iff] at hc
+      obtain ⟨⟨⟨c4, c5⟩, c6⟩, c7⟩ := hc
+      rw [diffBinds_eq_ops e _ managed e.b.binds c1 h2]
+      generalize bindOps managed e.b.binds
+        (diffUnordered (managed.map fun i => (e.a.binds.getD i default).key) (e.b.binds.map (·.key))) = ops at c4 c5 c6 c7 ⊢
+      obtain ⟨d1, s1, i1, k1, _⟩ := opsFold_full e managed hw hA hB ops (generateNames e st0) (ofConfig e.a) managed [] (hI0 c3) c4
+      rw [c5] at i1 k1
+      refine ⟨d1, [], _, s1, i1, ?_, ?_, c3, ?_, fun i hi => by simp at hi⟩
+      · intro x hx
+        have := List.all_eq_true.mp c6 x hx
+        simpa using this
+      · intro x hx
+        have := List.all_eq_true.mp c7 x hx
+        simpa using this
+      · intro i hi
+        rcases k1 i hi with h | h
+        · simp at h
+        · exact Or.inl h
+    · have h2' : (diffUnordered (managed.map fun i => (e.a.binds.getD i default).key) (e.b.binds.map (·.key))).any (·.isEqual) = false := by
+        simpa using h2
+      rw [if_neg h2] at hc
+      simp only [Bool.and_eq_true] at hc
+      obtain ⟨c4, c5⟩ := hc
+      rw [diffBinds_noparts e _ managed e.b.binds c1 h2']
+      -- marking keeps the invariant
+      have hcore : Core (generateNames e st0) (nopartsSt e (generateNames e st0) managed) := by
+        unfold nopartsSt
+        split
+        · exact Core.refl _
+        · exact (⟨rfl, rfl, rfl, rfl, rfl, rfl, rfl, rfl, rfl⟩ : Core (generateNames e st0) ((generateNames e st0).hit "bind:no-parts-equal")).trans
+            (markDeletedBinds_core e _ managed)
+      have htoDel : ∀ i ∈ managed, i ∈ (nopartsSt e (generateNames e st0) managed).bToDel := by
+        intro i hi
+        unfold nopartsSt
+        split
+        · rename_i hm
+          have : managed = [] := by simpa using hm
+          rw [this] at hi; simp at hi
+        · exact (markDeletedBinds_toDel e managed _).1 i hi
+      have hI1 := (hI0 c3).of_core hcore
+      have s0 : Step e (generateNames e st0) (ofConfig e.a) (nopartsSt e (generateNames e st0) managed) (ofConfig e.a) :=
+        Step.of_marks hcore.out hcore.gNeeded hcore.aNeeded hcore.aReady hcore.aName
+      generalize nopartsSt e (generateNames e st0) managed = st1 at c5 hcore htoDel hI1 s0 ⊢
+      obtain ⟨d1, s1, i1, _, _⟩ := opsFold_full e managed hw hA hB (e.b.binds.map BOp.add) st1 (ofConfig e.a) managed [] hI1 c5
+      rw [opsEnd_adds] at i1
+      simp only [List.nil_append] at i1
+      -- `addCmds` touches neither `needed` nor `toDelete` of the access-group commands
+      have hadds : ∀ (bs : List Bind) (s : St), ((bs.map BOp.add).foldl (applyOp e) s).bNeeded = s.bNeeded ∧
+          ((bs.map BOp.add).foldl (applyOp e) s).bToDel = s.bToDel := by
+        intro bs
+        induction bs with
+        | nil => intro s; exact ⟨rfl, rfl⟩
+        | cons b bs ih =>
+          intro s
+          rw [List.map_cons, List.foldl_cons]
+          obtain ⟨r1, r2⟩ := ih (applyOp e s (.add b))
+          have hm := transferAcl_bmarks e s b.acl
+          refine ⟨r1.trans ?_, r2.trans ?_⟩
+          · show (transferAcl e s b.acl).bNeeded = s.bNeeded
+            exact hm.1
+          · show (transferAcl e s b.acl).bToDel = s.bToDel
+            exact hm.2
+      obtain ⟨hn, ht⟩ := hadds e.b.binds st1
+      refine ⟨d1, managed, e.b.binds, s0.trans s1, i1, fun x hx => hx, fun x hx => hx, c3, fun i hi => Or.inr hi, ?_⟩
+      intro i hi
+      refine ⟨hi, ?_, by rw [ht]; exact htoDel i hi⟩
+      rw [hn, hcore.bNeeded]
+      have := List.all_eq_true.mp c4 i hi
       simpa using this
-    · intro i hi
-      apply (bn1 i).mpr
-      left; rw [c2]; exact hi
 
 /-- **The whole engine on the strict device, class K2.** -/
 theorem k2_core (e : Env) (hw : WF e) (hA : RefsClosedA e) (hB : RefsClosedB e) (st0 : St) (managed : List Nat)
@@ -320,22 +440,38 @@ theorem k2_core (e : Env) (hw : WF e) (hA : RefsClosedA e) (hB : RefsClosedB e) 
       (routeDelsOf (sortRoutes e.a.routes) (sortRoutes e.b.routes))
       (routeInssOf (sortRoutes e.a.routes) (sortRoutes e.b.routes)) = true) :
     ∃ d', exec (ofConfig e.a) (finalSt e st0 managed).out = some d' ∧ Converged e d' := by
-  have hI0 : BInv e (generateNames e st0) (ofConfig e.a) managed [] :=
-    binv_init e.a e.b e.sc st0 managed hci hAclNames hkeys
+  have hI0 : ∀ (_ : (managed.map (keyOf e)).Nodup), BInv e managed (generateNames e st0) (ofConfig e.a) managed [] :=
+    fun hmk => binv_init e.a e.b e.sc st0 managed hci hAclNames hkeys hmk
   have hout0 : (generateNames e st0).out = [] := (checkInterfaces_init e st0 managed hci).1
-  obtain ⟨d1, dn, s1, i1, hcov, hbn⟩ := binds_run e hw hA hB st0 managed hI0 hcb
+  obtain ⟨d1, pend, dn, s1, i1, hcov, hsub, hmk, hbn, hpend⟩ := binds_run e hw hA hB st0 managed hI0 hcb
   unfold finalSt
-  generalize afterBinds e st0 managed = stB at s1 i1 hbn ⊢
+  generalize afterBinds e st0 managed = stB at s1 i1 hbn hpend ⊢
   obtain ⟨cs1, ho1, he1⟩ := s1.out
   obtain ⟨d2, cs2, fr, he2, f2, b2, n2, a2, g2, ro2, rk2⟩ := diffRoutes_full e stB d1 i1.full i1.routes hcr
   generalize hstR : diffRoutes stB (sortRoutes e.a.routes) (sortRoutes e.b.routes) = stR at fr f2 ⊢
   -- what is pending
-  obtain ⟨pb, pa, pg, pan, pgn⟩ := duPending_allNeeded e stR managed (fun i hi => by rw [fr.bNeeded]; exact hbn i hi)
-  have hfrozenB : ∀ p ∈ d1.binds, FrozenAcl e stR p.2 := by
-    intro p hp
-    rcases i1.frozenVals p hp with h | ⟨j, hj, _⟩
+  obtain ⟨pb, pa, pg, pan, pgn⟩ := duPending_allNeeded e stR managed (fun i hi => by
+    rw [fr.bNeeded, fr.bToDel]
+    rcases hbn i hi with h | h
+    · exact Or.inl h
+    · exact Or.inr (hpend i h).2.2)
+  have hPB : ∀ i, i ∈ (duPending e stR managed).1.binds ↔ i ∈ pend := by
+    intro i
+    rw [pb, List.mem_filter, fr.bNeeded, fr.bToDel]
+    simp only [Bool.and_eq_true, Bool.not_eq_true', List.contains_eq_mem, decide_eq_false_iff_not, decide_eq_true_eq]
+    constructor
+    · rintro ⟨h1, h2, _⟩
+      rcases hbn i h1 with h | h
+      · exact absurd h h2
+      · exact h
+    · intro h
+      obtain ⟨x1, x2, x3⟩ := hpend i h
+      exact ⟨x1, x2, x3⟩
+  have hfrozenB : ∀ p ∈ d1.binds, p.1 ∉ (duPending e stR managed).1.binds.map (keyOf e) → FrozenAcl e stR p.2 := by
+    intro p hp hk
+    rcases i1.frozenVals p hp with h | ⟨j, hj, h3⟩
     · exact h.mono (fun y hy => by rw [fr.aNeeded]; exact hy)
-    · simp at hj
+    · exact absurd (List.mem_map.mpr ⟨j, (hPB j).mpr hj, h3.symm⟩) hk
   have hnotpendA : ∀ X, FrozenAcl e stR X → X ∉ (duPending e stR managed).1.acls := by
     intro X hf hx
     obtain ⟨m1, m2⟩ := pa X hx
@@ -348,28 +484,36 @@ theorem k2_core (e : Env) (hw : WF e) (hA : RefsClosedA e) (hB : RefsClosedB e) 
     rcases hf with hf | hf
     · exact g2' hf
     · exact hf g1
-  obtain ⟨tail, d3, hot, het, hacl3, hgrp3, hb3, hr3, hi3⟩ := deleteUnused_exec_nobinds e stR managed d2 f2.sem.mode pb
+  have hlinesOf : ∀ p ∈ d2.acls, linesOf d2 p.1 = p.2 := by
+    intro p hp
+    unfold linesOf
+    rw [lookup_of_mem_nodup d2.acls p.1 p.2 f2.keysNodup hp]; rfl
+  obtain ⟨tail, d3, hot, het, hacl3, hgrp3, hb3, hr3, hi3⟩ := deleteUnused_exec e stR managed d2 f2.sem.mode
+    (by
+      rw [pb]
+      exact List.Nodup.sublist (List.filter_sublist.map _) hmk)
+    (by
+      intro i hi
+      rw [b2]; exact i1.pendOrig i ((hPB i).mp hi))
     (pan hAclNames) (pgn hGrpNames)
     (by
       intro m hm
       obtain ⟨m1, m2⟩ := pa m hm
       refine ⟨f2.devAcls m m1, ?_⟩
-      cases hh : aclBound d2 m
-      · rfl
-      · exfalso
-        unfold aclBound at hh
-        obtain ⟨p, hp, hpm⟩ := List.any_eq_true.mp hh
-        rw [b2] at hp
-        have : p.2 = m := by simpa using hpm
-        exact hnotpendA m (this ▸ hfrozenB p hp) hm)
+      intro p hp hk e1
+      rw [b2] at hp
+      exact hnotpendA m (e1 ▸ hfrozenB p hp hk) hm)
+    (by
+      intro p hp hpA
+      obtain ⟨m1, m2⟩ := pa p.1 hpA
+      rw [← hlinesOf p hp]
+      exact f2.untouched p.1 m1 m2)
     (by
       intro g hg
       obtain ⟨g1, g2', g3⟩ := pg g hg
       refine ⟨f2.sem.dev g g1, ?_⟩
       intro p hp hpA l hl hgl
-      have hpl : linesOf d2 p.1 = p.2 := by
-        unfold linesOf
-        rw [lookup_of_mem_nodup d2.acls p.1 p.2 f2.keysNodup hp]; rfl
+      have hpl := hlinesOf p hp
       have hX : hasAcl d2 p.1 = true := (hasAcl_iff_keys d2 p.1).mpr (List.mem_map.mpr ⟨p, hp, rfl⟩)
       by_cases hf : FrozenAcl e stR p.1
       · exact hnotpendG g (f2.frozenLines p.1 hX hf l (by rw [hpl]; exact hl) g hgl) hg
@@ -383,16 +527,47 @@ theorem k2_core (e : Env) (hw : WF e) (hA : RefsClosedA e) (hB : RefsClosedB e) 
         rw [hun] at hl
         obtain ⟨l0, hl0, rfl⟩ := List.mem_map.mp hl
         exact g3 p.1 hin hnn hpA l0 hl0 hgl)
+    (by
+      intro h
+      rcases h with h | h
+      · obtain ⟨m, hm⟩ := List.exists_mem_of_ne_nil _ h
+        have := (pa m hm).1
+        have hl : 0 < (A0 e).length := List.length_pos_of_mem this
+        simp only [List.length_map] at hl
+        omega
+      · obtain ⟨g, hg⟩ := List.exists_mem_of_ne_nil _ h
+        have := (pg g hg).1
+        have hl : 0 < (D0 e).length := List.length_pos_of_mem this
+        simp only [List.length_map] at hl
+        omega)
+  have hkeepB : ∀ x ∈ dn, (fun (k : BKey) => !((duPending e stR managed).1.binds.map (keyOf e)).contains k) (x.dir, x.intf) = true := by
+    intro x hx
+    simp only [Bool.not_eq_true', List.contains_eq_mem, decide_eq_false_iff_not, List.mem_map]
+    rintro ⟨i, hi, hik⟩
+    exact i1.doneDisj x hx i ((hPB i).mp hi) hik.symm
   refine ⟨d3, ?_, ?_⟩
   · rw [hot, fr.out, ho1, hout0, List.nil_append]
     exact exec_append_some (exec_append_some he1 he2) het
-  · refine ⟨by rw [hi3, n2]; exact i1.intfs, by rw [hb3, b2]; exact i1.keysEq, ?_, ?_, ?_⟩
+  · refine ⟨by rw [hi3, n2]; exact i1.intfs, ?_, ?_, ?_, ?_⟩
+    · intro p hp
+      rw [hb3, b2] at hp
+      obtain ⟨hp1, hp2⟩ := List.mem_filter.mp hp
+      rcases i1.keysFrom p hp1 with ⟨j, hj, h3⟩ | ⟨x, hx, h3⟩ | ⟨j, hj, hjm, h3⟩
+      · exfalso
+        have : p.1 ∈ (duPending e stR managed).1.binds.map (keyOf e) := List.mem_map.mpr ⟨j, (hPB j).mpr hj, h3.symm⟩
+        simp [this] at hp2
+      · exact Or.inl ⟨x, hsub x hx, h3⟩
+      · right
+        refine ⟨e.a.binds.getD j default, ?_, h3, unmanaged_intf e st0 managed hci j hj hjm⟩
+        rw [List.getD_eq_getElem?_getD, List.getElem?_eq_getElem hj]
+        exact List.getElem_mem hj
     · intro x hx
       obtain ⟨q1, q2⟩ := i1.doneOK x (hcov x hx)
       have hname : stR.aNameOf x.acl = stB.aNameOf x.acl := by unfold St.aNameOf; rw [fr.aName]
       obtain ⟨r1, r2, r3⟩ := f2.ready x.acl (by rw [fr.aReady]; exact q1)
       rw [hname] at r1 r2 r3
-      refine ⟨stB.aNameOf x.acl, by rw [hb3, b2]; exact q2, ?_⟩
+      refine ⟨stB.aNameOf x.acl, ?_, ?_⟩
+      · rw [hb3, b2, lookup_filter_keepK (fun (k : BKey) => !((duPending e stR managed).1.binds.map (keyOf e)).contains k) (x.dir, x.intf) (hkeepB x (hcov x hx))]; exact q2
       have hkeep : (fun (n : Name) => !(duPending e stR managed).1.acls.contains n) (stB.aNameOf x.acl) = true := by
         simp only [Bool.not_eq_true', List.contains_eq_mem, decide_eq_false_iff_not]
         exact hnotpendA _ r3
